@@ -758,14 +758,13 @@ Qed.
 
 Lemma finish_deps : forall s voi ivs es vidx,
   own_inv ivs es -> nonempty_inv ivs es -> noconst ivs -> Forall (fun v => iv_external v = false) ivs -> ivs_ok s ivs ->
-  (forall p, iv_type (geti ivs p) = VState -> has_index (geti ivs p) = true) \/ True ->
   dependency_fix = true ->
   (forall ivs2, evolves s ivs ivs2 -> forall e1 e2, In e1 es -> same_dep e1 e2 -> ie_type e2 <> EUnknown -> dep_ok s ivs2 e2) ->
   valid_type (r_type (finish s voi ivs es vidx)) = true ->
   (forall p, iv_type (geti ivs p) = VState -> has_index (geti ivs p) = true) ->
   wf_deps_complete s (finish s voi ivs es vidx) = true /\ wf_deps_sound s (finish s voi ivs es vidx) = true.
 Proof.
-  intros s voi ivs es vidx Hown Hn Hnc Hne Hok _ Hfx Hdep Hvalid Hst. unfold finish in *.
+  intros s voi ivs es vidx Hown Hn Hnc Hne Hok Hfx Hdep Hvalid Hst. unfold finish in *.
   destruct (validate_vars ivs vidx) as [[ivs1 vidx1] iss1] eqn:Ev.
   destruct iss1 as [|i1 ir1].
   2:{ cbn in Hvalid. destruct (existsb _ ivs1); [destruct (existsb _ ivs1)|]; discriminate. }
@@ -793,3 +792,100 @@ Proof.
     destruct F as [_ _ Fe]. assert (Hc : In (core e2) (map core es2)) by (apply in_map; exact He2). apply (Fe _ Hc). }
   destruct (model_type voi ivs2 es2); try discriminate; apply package_deps; assumption.
 Qed.
+
+(** Result-level W5/W6 with the repaired dependency bookkeeping: in every valid result each equation's dependency
+    list covers every class its document equation reads (other than the classes it computes itself), lists no class
+    it does not read, no class it computes, and only classes that appear among the result's variables.
+    [unique_ids s] says that the abstract system gives different ids to different equations (the specification
+    function [find_eqn] looks a document equation up by its id). *)
+Theorem result_wf_deps : forall s r,
+  analyse s = Done r -> valid_type (r_type r) = true -> dependency_fix = true -> unique_ids s -> states_have_odes s ->
+  wf_deps_complete s r = true /\ wf_deps_sound s r = true.
+Proof.
+  intros s r H Hvalid Hfx Huniq Hso. unfold analyse, analyse_ext in H.
+  destruct (negb (resolvable s)); [discriminate|].
+  destruct (build s) as [[ivs0 es0]|] eqn:Eb; [|discriminate].
+  destruct (check_inits s ivs0 0 s); [|inversion H; subst; discriminate].
+  cbn [fold_left] in H.
+  destruct (vs_issues (analyse_asts s ivs0 es0)) eqn:Ei; [|inversion H; subst; discriminate].
+  destruct (loop s (loop_fuel es0) 1 false (mkCs (vs_ivs (analyse_asts s ivs0 es0)) 0 0) es0) as [[st es1]|] eqn:El; [|discriminate].
+  inversion H; subst r. clear H.
+  destruct (own_inv_initial _ _ _ Eb) as (H0 & Hlen).
+  destruct (build_spec _ _ _ Eb) as (B1 & B2 & B3). pose proof (build_fresh _ _ _ Eb) as B4.
+  pose proof (build_built _ _ _ Eb) as Hbuilt.
+  destruct (analyse_asts_inv s ivs0 es0 B1 B3 B4 B2 Ei) as ((Hok & _ & _ & _ & Hne) & _).
+  assert (HA : Forall asts_iv ivs0).
+  { eapply Forall_impl; [|exact B4]. intros v ([T|T] & _ & I); split; try exact I; rewrite T; reflexivity. }
+  assert (Hpos : forall e d, In e es0 -> In d (ie_diffs e) -> ivar_of s ivs0 (snd d) < length ivs0).
+  { intros e d He Hd. rewrite Forall_forall in B2. destruct (B2 e He) as (D & _). rewrite Forall_forall in D.
+    destruct (D d Hd) as (_ & R). apply ivar_of_spec; [exact B1|]. apply B3; [exact R|]. apply in_range_comp in R. apply R. }
+  destruct (analyse_asts_types s ivs0 es0 HA Hpos) as (T1 & T2 & _).
+  set (ivs := vs_ivs (analyse_asts s ivs0 es0)) in *.
+  assert (Htypes : forall q, asts_type (iv_type (geti ivs q)) = true).
+  { intro q. apply (Forall_geti (fun v => asts_type (iv_type v) = true)); [|reflexivity].
+    eapply Forall_impl; [|exact T1]. intros v (A & _). exact A. }
+  assert (Hn0 : nonempty_inv ivs es0).
+  { intros p _ K. specialize (Htypes p). rewrite K in Htypes. discriminate. }
+  assert (Hc0 : noconst ivs).
+  { intros q K. specialize (Htypes q). rewrite K in Htypes. discriminate. }
+  pose proof (loop_own _ _ _ _ _ _ _ _ El Hne H0) as Hown.
+  pose proof (loop_nonempty _ _ _ _ _ _ _ _ El Hne H0 Hn0) as Hn1.
+  pose proof (loop_noconst _ _ _ _ _ _ _ _ El (oi_bounds _ _ H0) Hc0) as Hc1.
+  destruct (loop_inv _ _ _ _ _ _ _ _ El (oi_bounds _ _ H0)) as (Hev & _).
+  pose proof (noext_evolves _ _ _ Hev Hne) as Hne1.
+  (* the dependency invariant through the loop *)
+  assert (Hcl0 : forall p, iv_cls (geti ivs p) = iv_cls (geti ivs0 p)).
+  { intro p. unfold geti. rewrite <- (map_nth iv_cls ivs divar p), <- (map_nth iv_cls ivs0 divar p), T2. reflexivity. }
+  assert (Hu0 : Forall uinv es0).
+  { eapply Forall_impl; [|exact B2]. intros e (_ & _ & _ & _ & U & _) _. exact U. }
+  assert (Hb0 : Forall (vbounded (length ivs)) es0).
+  { eapply Forall_impl; [|exact B2]. intros e (_ & V & _). unfold vbounded. rewrite Hlen. exact V. }
+  assert (Hd0 : Forall2 (dep_inv s ivs) es0 es0).
+  { assert (G : forall l, Forall (fun e => exists cq, built_ok s ivs0 cq e) l -> Forall (eq_ok s (length ivs0)) l -> Forall2 (dep_inv s ivs) l l).
+    { induction l as [|e l IH]; intros F1 F2; constructor; inversion F1; inversion F2; subst; [|apply IH; assumption].
+      destruct H2 as (cq & _ & Dn & Nd & _). destruct H6 as (_ & _ & _ & _ & U & Ty).
+      constructor.
+      - exact Nd.
+      - apply incl_refl.
+      - rewrite Dn. constructor.
+      - intros p Hp. left. exact Hp.
+      - rewrite Dn. intros d [].
+      - intro K. contradiction.
+      - intro K. contradiction.
+      - reflexivity. }
+    apply G; [|exact B2].
+    clear - Hbuilt. induction Hbuilt; constructor; [exists x; assumption|assumption]. }
+  pose proof (loop_dep _ _ _ _ es0 _ _ _ _ El Hfx Hok (oi_bounds _ _ H0) Hu0 Hb0 Hd0) as Hd1.
+  cbn [cs_ivs] in *.
+  apply finish_deps; try assumption.
+  - eapply evolves_ivs_ok; eassumption.
+  - intros ivs2 Hev2 e1 e2 He1 (S1 & S2 & S3 & S4 & S5) Hty2.
+    destruct (Forall2_In_r _ _ _ _ Hd1 He1) as (e0 & He0 & [Dn Di Dd Dc Ds Do Dv Did]).
+    destruct (Forall2_In_r _ _ _ _ Hbuilt He0) as ((c, q) & Hcq & Bid & _ & _ & Bb & Br). cbn [fst snd] in *.
+    assert (Hty1 : ie_type e1 <> EUnknown) by (intro K; apply Hty2; apply S5; exact K).
+    assert (Hcl2 : forall p, iv_cls (geti ivs2 p) = iv_cls (geti (cs_ivs st) p)) by (intro p; eapply cls_stable; exact Hev2).
+    assert (HclL : forall p, iv_cls (geti (cs_ivs st) p) = iv_cls (geti ivs0 p)).
+    { intro p. rewrite (cls_stable _ _ _ p Hev). apply Hcl0. }
+    exists (q_id q), c, q. split; [rewrite S1, Did; exact Bid|]. split; [apply find_eqn_unique; assumption|]. split.
+    + intros k Hk. apply Br in Hk. unfold pcls in Hk. apply in_map_iff in Hk. destruct Hk as (p & Pk & Pin).
+      destruct (Dc p Pin) as [Pv|[Pu|Pd]].
+      * left. exists p. split; [rewrite S3; apply Dv; assumption|]. rewrite Hcl2, HclL. exact Pk.
+      * left. exists p. split; [rewrite S3; exact Pu|]. rewrite Hcl2, HclL. exact Pk.
+      * right. rewrite S2. rewrite HclL, Pk in Pd. exact Pd.
+    + intros d Hd. rewrite S2 in Hd. destruct (Ds d Hd) as (p & P1 & P2 & P3). split; [|split].
+      * apply Br. unfold pcls. apply in_map_iff. exists p. split; [|exact P1]. rewrite P3, HclL. reflexivity.
+      * intros u Hu. rewrite S3 in Hu. rewrite Hcl2. apply Do; assumption.
+      * exists p. split; [|rewrite Hcl2; symmetry; exact P3].
+        rewrite Forall_forall in Bb. specialize (Bb p P1). destruct Hev2 as (L2 & _). destruct Hev as (L1 & _). cbn [cs_ivs] in *. lia.
+  - apply (Hso st es1). unfold loop_state. rewrite Eb. exact El.
+Qed.
+
+Theorem result_wf_deps_complete : forall s r,
+  analyse s = Done r -> valid_type (r_type r) = true -> dependency_fix = true -> unique_ids s -> states_have_odes s ->
+  wf_deps_complete s r = true.
+Proof. intros s r H1 H2 H3 H4 H5. exact (proj1 (result_wf_deps s r H1 H2 H3 H4 H5)). Qed.
+
+Theorem result_wf_deps_sound : forall s r,
+  analyse s = Done r -> valid_type (r_type r) = true -> dependency_fix = true -> unique_ids s -> states_have_odes s ->
+  wf_deps_sound s r = true.
+Proof. intros s r H1 H2 H3 H4 H5. exact (proj2 (result_wf_deps s r H1 H2 H3 H4 H5)). Qed.
